@@ -46,7 +46,8 @@ type Outcome struct {
 	Err      string
 }
 
-func classify(err error) Outcome {
+// Classify maps a handshake error to an outcome class.
+func Classify(err error) Outcome {
 	var vm *handshake.VersionMismatchError
 	var de *handshake.DecodeError
 	var re *handshake.RefusedError
@@ -94,7 +95,7 @@ func (s *side) wait(d time.Duration) Outcome {
 		}
 		return o
 	case err := <-s.errs:
-		return classify(err)
+		return Classify(err)
 	case <-time.After(d):
 		return Outcome{Class: "timeout"}
 	}
@@ -112,7 +113,7 @@ func RunPair(mode protocol.ProtocolMode, sm, cm protocol.ProtocolVersionMap) (cl
 	cli.Start()
 	cmux.StartOnce()
 	server = ss.wait(3 * time.Second)
-	client = cs.wait(3 * time.Second)
+	client = cs.wait(400 * time.Millisecond)
 	cmux.Stop()
 	smux.Stop()
 	return
